@@ -1695,4 +1695,147 @@ Proof.
     destruct ls'; [apply hq|]. rewrite !toks_app, <- !app_assoc. apply hq.
 Qed.
 
+(* a parenthesised parameter list, as parameters or as results *)
+Lemma plist_tokens v l pa : join_opt comma_sp (params_pieces v (map ppq l)) = Some pa ->
+  exists ls, seq_opt (params_pieces v (map ppq l)) = Some ls /\ pa = sep_by comma_sp ls.
+Proof.
+  unfold join_opt. destruct (seq_opt _) as [ls|]; [|discriminate]. intros h. injection h as <-. exists ls. auto.
+Qed.
+
+Lemma params_parse macro v l pa rest m :
+  Forall (fun q : param => Qo A_stmt (snd q)) l ->
+  join_opt comma_sp (params_pieces v (map ppq l)) = Some pa ->
+  okplist (named_of l) v l = true -> (v = true -> l <> []) ->
+  (2 + needpl l <= m)%nat ->
+  pparams m macro false (KLP :: toks pa ++ KRP :: rest) = ROk (Some (map normq l), v, rest).
+Proof.
+  intros hA hpa hok hv hm. destruct (plist_tokens v l pa hpa) as [ls [hls ->]].
+  destruct m as [|k]; [lia|].
+  destruct l as [|q l'].
+  - cbn [map params_pieces seq_opt] in hls. injection hls as <-. cbn [sep_by toks app map].
+    rewrite pparams_empty. destruct v; [exfalso; apply (hv eq_refl); reflexivity|reflexivity].
+  - rewrite pparams_list by (apply (params_first (named_of (q :: l')) v (q :: l') ls); [discriminate|exact hok|exact hls]).
+    apply (params_full v (q :: l') ls false rest k hA hls); [discriminate|exact hok|reflexivity|lia].
+Qed.
+
+Lemma results_parse l pa rest m :
+  Forall (fun q : param => Qo A_stmt (snd q)) l ->
+  join_opt comma_sp (params_pieces false (map ppq l)) = Some pa ->
+  okplist (named_of l) false l = true -> l <> [] ->
+  (2 + needpl l <= m)%nat ->
+  pparams m false true (KLP :: toks pa ++ KRP :: rest) = ROk (Some (map normq l), false, rest).
+Proof.
+  intros hA hpa hok hne hm. destruct (plist_tokens false l pa hpa) as [ls [hls ->]].
+  destruct m as [|k]; [lia|].
+  rewrite pparams_result_list; [|exact result_start_lp|apply (params_first (named_of l) false l ls hne hok hls)].
+  apply (params_full false l ls true rest k hA hls hne hok); [discriminate|lia].
+Qed.
+
+Lemma params_pieces_false l : params_pieces false l = map param_pieces l.
+Proof.
+  induction l as [|q r IH]; [reflexivity|]. destruct r as [|q2 r'].
+  - cbn [params_pieces map]. destruct q as [a [t|]]; reflexivity.
+  - change (params_pieces false (q :: q2 :: r')) with (param_pieces q :: params_pieces false (q2 :: r')). rewrite IH. reflexivity.
+Qed.
+
+Definition bare_need (rs : list param) : nat := match rs with [(None, Some t)] => full true t | _ => 0%nat end.
+
+Lemma need_func ty p macro ps rs v :
+  need ty (XFunc p macro ps rs v) = (8 + needpl ps + needpl rs + bare_need rs)%nat.
+Proof. reflexivity. Qed.
+
+Lemma A_func p macro ps rs v :
+  Forall (fun q : param => Qo A_stmt (snd q)) ps -> Forall (fun q : param => Qo A_stmt (snd q)) rs ->
+  A_stmt (XFunc p macro ps rs v).
+Proof.
+  intros IHps IHrs ty el nxt hok pcs hpp g0 b0 c g P rest hnxt hh.
+  cbn [ExprFullOk.ok] in hok.
+  apply andb_prop in hok. destruct hok as [hok hres].
+  apply andb_prop in hok. destruct hok as [hok hps].
+  apply andb_prop in hok. destruct hok as [hlit hv].
+  change (okplist (named_of ps) v ps = true) in hps.
+  cbn [ExprFullM.pp] in hpp.
+  change (map (fun q : option bytes * option ex => (fst q, omap pp (snd q))) ps) with (map ppq ps) in hpp.
+  destruct (join_opt comma_sp (params_pieces v (map ppq ps))) as [pa|] eqn:epa; [|discriminate].
+  assert (hvne : v = true -> ps <> []).
+  { intros -> ->. cbn in hv. discriminate hv. }
+  (* the results *)
+  assert (hR : exists pr, pcs = ExprFullM.T (KKw (if macro then WMacro else WFunc)) ++ ExprFullM.T KLP ++ pa ++ ExprFullM.T KRP ++ pr /\
+            forall m, (2 + needpl rs + bare_need rs <= m)%nat ->
+              exists ropt, pparams m macro true (toks pr ++ rest) = ROk (ropt, false, rest) /\
+                match ropt with Some r => r | None => [] end = map normq rs /\ (macro = true -> ropt <> None)).
+  { assert (hlist : forall pr, rs <> [] ->
+              join_opt comma_sp (map (fun q : param => param_pieces (fst q, omap pp (snd q))) rs) = Some pr ->
+              okplist (named_of rs) false rs = true -> macro = false ->
+              forall m, (2 + needpl rs <= m)%nat ->
+              exists ropt, pparams m macro true (toks ([PcS] ++ ExprFullM.T KLP ++ pr ++ ExprFullM.T KRP) ++ rest) = ROk (ropt, false, rest) /\
+                match ropt with Some r => r | None => [] end = map normq rs /\ (macro = true -> ropt <> None)).
+    { intros pr hne hj hokr -> m hm. exists (Some (map normq rs)). split; [|split; [reflexivity|discriminate]].
+      norm_toks. apply results_parse; try assumption.
+      rewrite params_pieces_false, map_map. exact hj. }
+    destruct macro.
+    - (* macro: one of the result names *)
+      destruct rs as [|[[a|] [t|]] rs']; try (cbn beta iota in hres; discriminate hres).
+      destruct t; try (cbn beta iota in hres; discriminate hres). destruct rs' as [|q rs']; try (cbn beta iota in hres; discriminate hres).
+      apply andb_prop in hres. destruct hres as [hmem hit]. apply negb_true_iff in hit.
+      cbn [ExprFullM.pp omap] in hpp. injection hpp as <-. rewrite (ident_text_ok _ hit).
+      eexists. split; [rewrite <- !app_assoc; reflexivity|]. intros m hm. exists (Some [(None, Some (XIdent 0 name))]).
+      split; [|split; [reflexivity|discriminate]]. norm_toks. destruct m as [|k]; [lia|]. apply pparams_macro_result. exact hmem.
+    - destruct rs as [|[[a|] [t|]] [|q rs']].
+      + (* no result *)
+        injection hpp as <-. exists []. split; [rewrite !app_nil_r; reflexivity|]. intros m hm. exists None.
+        split; [|split; [reflexivity|discriminate]]. cbn [toks app].
+        apply andb_prop in hres. destruct hres as [h1 h2]. apply negb_true_iff in h1. apply negb_true_iff in h2.
+        destruct m as [|k]; [lia|]. destruct rest as [|t0 r0]; [apply pparams_result_none_nil|].
+        cbn [hd_error] in hnxt. subst nxt. cbn [ExprFullOk.starts_result_o ExprFullOk.is_tok] in h1, h2.
+        apply pparams_result_none; [exact h1|]. intros ->. discriminate.
+      + destruct (join_opt comma_sp _) as [pr|] eqn:epr in hpp; [|discriminate]. injection hpp as <-.
+        eexists. split; [rewrite <- !app_assoc; reflexivity|]. intros m hm. apply hlist; first [assumption | discriminate | reflexivity | lia].
+      + destruct (join_opt comma_sp _) as [pr|] eqn:epr in hpp; [|discriminate]. injection hpp as <-.
+        eexists. split; [rewrite <- !app_assoc; reflexivity|]. intros m hm. apply hlist; first [assumption | discriminate | reflexivity | lia].
+      + destruct (join_opt comma_sp _) as [pr|] eqn:epr in hpp; [|discriminate]. injection hpp as <-.
+        eexists. split; [rewrite <- !app_assoc; reflexivity|]. intros m hm. apply hlist; first [assumption | discriminate | reflexivity | lia].
+      + destruct (join_opt comma_sp _) as [pr|] eqn:epr in hpp; [|discriminate]. injection hpp as <-.
+        eexists. split; [rewrite <- !app_assoc; reflexivity|]. intros m hm. apply hlist; first [assumption | discriminate | reflexivity | lia].
+      + (* one unnamed result, without parentheses *)
+        apply andb_prop in hres. destruct hres as [hst hokt].
+        destruct (pp t) as [pt|] eqn:ept; [|discriminate]. injection hpp as <-.
+        inversion IHrs as [|x y hAt _]. subst x y. cbn [snd Qo] in hAt.
+        eexists. split; [rewrite <- !app_assoc; reflexivity|]. intros m hm. exists (Some [(None, Some (norm t))]).
+        split; [|split; [reflexivity|discriminate]]. norm_toks.
+        destruct (first_tok_cons t pt ept) as [t0 [r0 [h1 h2]]]. rewrite h2 in hst. cbn [ExprFullOk.starts_result_o] in hst.
+        destruct m as [|k]; [lia|]. rewrite h1. cbn [app]. rewrite pparams_result_bare by exact hst.
+        rewrite (app_comm_cons r0 rest t0), <- h1.
+        rewrite (B_type t hAt false true nxt pt rest k hokt ept hnxt) by (unfold needpl, bare_need in hm; cbn [fold_right] in hm; lia).
+        reflexivity.
+      + destruct (join_opt comma_sp _) as [pr|] eqn:epr in hpp; [|discriminate]. injection hpp as <-.
+        eexists. split; [rewrite <- !app_assoc; reflexivity|]. intros m hm. apply hlist; first [assumption | discriminate | reflexivity | lia].
+      + discriminate.
+      + destruct (join_opt comma_sp _) as [pr|] eqn:epr in hpp; [|discriminate]. injection hpp as <-.
+        eexists. split; [rewrite <- !app_assoc; reflexivity|]. intros m hm. apply hlist; first [assumption | discriminate | reflexivity | lia]. }
+  destruct hR as [pr [-> hR]].
+  exists c. intros n hn. rewrite need_func in hn.
+  cbn [ExprFull_base.cost ExprFull_base.spine ExprFull_base.lastop ExprFull_base.norm is_operator negb app] in *.
+  change (1 + n)%nat with (S n). rewrite andb_true_r. norm_toks.
+  assert (hfuel : (6 + needpl ps + needpl rs + bare_need rs <= n)%nat) by lia.
+  destruct n as [|n1]; [lia|]. destruct n1 as [|n2]; [lia|].
+  assert (hparse : forall lit, (lit = true -> match rest with KLBrace :: _ => False | _ => True end) ->
+             pfunc (S (S n2)) macro lit (KLP :: toks pa ++ KRP :: toks pr ++ rest) =
+             ROk (XFunc 0 macro (map normq ps) (map normq rs) v, rest)).
+  { intros lit hlitr. rewrite pfunc_S by reflexivity.
+    rewrite (params_parse macro v ps pa (toks pr ++ rest) (S n2) IHps epa hps hvne) by lia.
+    cbn [rbind fst snd].
+    destruct (hR (S n2)) as [ropt [hr1 [hr2 hr3]]]; [lia|]. rewrite hr1. cbn [rbind fst snd].
+    assert (hm : match ropt, macro with None, true => false | _, _ => true end = true).
+    { destruct ropt; [reflexivity|]. destruct macro; [|reflexivity]. exfalso. apply (hr3 eq_refl). reflexivity. }
+    destruct ropt as [r|], macro; try discriminate hm; cbn beta iota zeta; cbn beta iota in hr2; rewrite <- hr2;
+      (destruct lit; [|reflexivity]; specialize (hlitr eq_refl); destruct rest as [|[] ?]; try reflexivity; contradiction). }
+  destruct macro.
+  - rewrite po_macro, hparse by discriminate. reflexivity.
+  - rewrite po_func. cbn [fl_type FL]. rewrite hparse; [reflexivity|].
+    intros hl. apply negb_true_iff in hl. subst ty. cbn [orb] in hlit. apply negb_true_iff in hlit.
+    destruct rest as [|t0 r0]; [exact I|]. cbn [hd_error] in hnxt. subst nxt. cbn [ExprFullOk.is_tok] in hlit.
+    destruct t0; try exact I. discriminate.
+Qed.
+
 End Main.
